@@ -2,7 +2,7 @@
    for the trace conformance check of C09 / C10.  ExtrOcamlBasic only. *)
 From Coq Require Import ExtrOcamlBasic List NArith.
 From Coq.Strings Require Import Byte.
-From GM Require Import Codec.Packet Session.Ids Session.Store Client.Future Client.Client Client.TraceScan Client.Tracker.
+From GM Require Import Codec.Packet Session.Ids Session.Store Client.Future Client.Client Client.TraceScan Client.Tracker Client.ClientLedger.
 Extraction Language OCaml.
 Separate Extraction
   Datatypes.length
@@ -14,4 +14,5 @@ Separate Extraction
   TraceScan.scan_sbs TraceScan.scan_pubrec TraceScan.unresolved
   TraceScan.hs_step TraceScan.scan_hs TraceScan.hs_twice TraceScan.ack_step TraceScan.scan_ack TraceScan.scan_noack TraceScan.order_step TraceScan.scan_order TraceScan.resend_step TraceScan.scan_resend
   TraceScan.close_step TraceScan.scan_close TraceScan.error_closes_ok TraceScan.rel_step TraceScan.rel_ok TraceScan.scan_rel TraceScan.kept_step TraceScan.scan_kept
+  ClientLedger.ledger_step ClientLedger.lscan0 ClientLedger.lscan_step ClientLedger.scan_ledger
   Tracker.tk_new Tracker.tk_reset Tracker.tk_window Tracker.tk_ping Tracker.tk_pong Tracker.tk_pending Tracker.pinger_decide.
